@@ -210,6 +210,7 @@ func (s *setGenerator) Decoder(g Generator, spec *compile.SetSpec) (string, erro
 
 		<$sr := newVar "sr">
 		<$sh := newVar "sh">
+		<$n := newVar "n">
 		<$o := newVar "o">
 		<$v := newVar "v">
 		func <.Name>(<$sr> <$stream>.Reader) (<$setType>, error) {
@@ -227,10 +228,16 @@ func (s *setGenerator) Decoder(g Generator, spec *compile.SetSpec) (string, erro
 				return nil, <$sr>.ReadSetEnd()
 			}
 
+			// The length comes from the wire: cap the pre-allocation so that a
+			// few bytes cannot make us allocate an arbitrary amount of memory.
+			<$n> := <$sh>.Length
+			if <$n> > 65536 {
+				<$n> = 65536
+			}
 			<if setUsesMap .Spec>
-				<$o> := make(<$setType>, <$sh>.Length)
+				<$o> := make(<$setType>, <$n>)
 			<else>
-				<$o> := make(<$setType>, 0, <$sh>.Length)
+				<$o> := make(<$setType>, 0, <$n>)
 			<end ->
 			for i := 0; i <lessthan> <$sh>.Length; i++ {
 				<$v>, err := <decode .Spec.ValueSpec $sr>
